@@ -13,7 +13,8 @@ gcc -g -DHAVE_CONFIG_H -I$T/lib -I$T/lib/ext2fs -I$T/include -I$T \
 truncate -s 60k $d/img
 # The last block of the file system is withheld (bad-block list): lib/ext2fs/punch.c punch_extent_blocks() refuses an
 # extent that ends exactly at the end of the file system ("free_start + free_count >= blocks_count", an independent
-# off-by-one outside this finding), which would keep ANY release of a file that owns the very last block from working.
+# off-by-one outside this finding, repaired in /repo by "fix: punch: an extent ending at the last block ..."), which on
+# a tree without that repair keeps ANY release of a file that owns the very last block from working.
 echo 59 > $d/bb
 $T/misc/mke2fs -q -F -t ext4 -b 1024 -I 256 -l $d/bb -O ea_inode,^has_journal,^resize_inode -m 0 $d/img 60 >/dev/null 2>&1 || exit 2
 echo hello > $d/f
